@@ -302,7 +302,9 @@ def write_evidence(ctx, mod, acc, corr, violations, wall):
         "wall_s": round(wall, 2),
         "violations": violations,
     }
-    d = os.path.join(VERIF, "evidence")
+    # evidence of runs against a scratch worktree (VERIF_REPO, mutation trials) must not overwrite the
+    # evidence of the registered checks, which always run against /repo
+    d = os.path.join(VERIF, "evidence") if os.path.realpath(REPO) == "/repo" else os.path.join(coqrun.BUILD, "evidence")
     os.makedirs(d, exist_ok=True)
     with open(os.path.join(d, f"{ctx.pid}.json"), "w") as fh:
         json.dump(ev, fh, indent=1, sort_keys=True, default=str)
